@@ -361,6 +361,7 @@ type vRun struct {
 	used   map[uint64]bool             // frames in use as tables/roots (for the freshness domain check)
 	zfSet  bool
 	stats  map[string]int
+	minit  [8]bool // monitor's view: the last Init of the slot succeeded
 }
 
 func (r *vRun) mon(sig string, format string, args ...interface{}) {
@@ -632,6 +633,10 @@ func (r *vRun) step(op uint64, a []uint64, secs []vSection) (res []uint64, stray
 		r.stats[fmt.Sprintf("op%d-allocfail", op)]++
 	} else if code == 3 || code == 0x103 {
 		r.stats[fmt.Sprintf("op%d-zero-rw-refused", op)]++
+	} else if code == 2 {
+		r.stats[fmt.Sprintf("op%d-huge-refused", op)]++
+	} else if code == 1 {
+		r.stats[fmt.Sprintf("op%d-invalid-mapping", op)]++
 	}
 	res = append(res, code, val, uint64(len(s.flushes)))
 	res = append(res, s.flushes...)
